@@ -539,8 +539,26 @@ def check_offset_provenance(ctx, lib):
                     [e.get("name") for e in s["place"]["p"] if isinstance(e, dict) and "f" in e][:1] == ["offset"]:
                 o = o or Origins(b, lib)
                 writers.setdefault(b.deff, []).append(o._rv(s["rv"], bb, 0))
-    ok = set(writers) == {P + "advance_with_pos"} and all(
-        all(x[0] == "field" and x[2] == "0" and x[1][0] == "call" and x[1][1].endswith("::pop_front") for x in w) for w in writers.get(P + "advance_with_pos", []))
+    OWN = ("field", ("param", 1), "offset")
+
+    def popped(y):
+        return y[0] == "call" and y[1].endswith("::pop_front")
+
+    def pos_of_popped(x):
+        if x == OWN:
+            return True     # past the end the parser stays where it is: the offset written is the offset it has
+        if not (x[0] == "field" and x[2] == "0"):
+            return False
+        y = x[1]
+        if popped(y):
+            return True
+        # pop_front().unwrap_or((self.offset, Eof)): the popped token's position, or the offset it already has
+        if y[0] == "call" and y[1].endswith("::unwrap_or") and len(y[2]) == 2:
+            return bool(y[2][0]) and all(popped(z) for z in y[2][0]) and bool(y[2][1]) and \
+                all(z[0] == "agg" and z[1] == "tuple" and len(z[2]) == 2 and set(z[2][0]) == {OWN} for z in y[2][1])
+        return False
+    ok = set(writers) == {P + "advance_with_pos"} and all(bool(w) and all(pos_of_popped(x) for x in w) for w in writers.get(P + "advance_with_pos", [])) and \
+        any(any(x != OWN for x in w) for w in writers.get(P + "advance_with_pos", []))
     ctx.check(ok, rule, "parser-offset", f"Parser.offset is only ever set to the position of the token just popped (writers: {sorted(writers)})")
     pn = lib.fn(P + "new")
     if pn is not None:
